@@ -237,6 +237,8 @@ def _parse_place_prefix(s: str):
 
 def parse_operand(s: str) -> Operand:
     s = s.strip()
+    if s.startswith("no_retag "):
+        s = s[9:]
     if s.startswith("copy "):
         return Operand("copy", parse_place(s[5:]))
     if s.startswith("move "):
@@ -260,6 +262,8 @@ _UNOPS = {"Not", "Neg", "PtrMetadata"}
 
 def parse_rvalue(s: str) -> Rvalue:
     s = s.strip()
+    if s.startswith("no_retag "):
+        s = s[9:]
     m = re.match(r"([A-Za-z]+)\((.*)\)$", s, re.S)
     if m and m.group(1) in _BINOPS:
         a = split_top(m.group(2))
